@@ -175,6 +175,13 @@ def cases(rng, tier):
         out.append(Case('perfect_power', line('perfect_power', n), oracle=o_pp(n), tag='pp-random'))
         kk = rng.choice([1, 2, 3, k, k + 1])
         out.append(Case('is_perfect_power', line('is_perfect_power', n, kk), tag='ipp'))
+    # small bases with EVERY exponent in a range (a cap on the exponent search that is slightly too low shows only for
+    # particular (base, exponent) pairs, e.g. 3^17)
+    for b in (2, 3, 5, 6, 7, 10, 12):
+        for k in range(1, 70 if not th else 260):
+            n = b ** k
+            out.append(Case('perfect_power', line('perfect_power', n), oracle=o_pp(n), tag='pp-small-base'))
+            if k % 5 == 0: out.append(Case('perfect_power', line('perfect_power', n + 1), oracle=o_pp(n + 1), tag='pp-small-base'))
     out.append(Case('perfect_power', line('perfect_power', -5), nontrivial=False, tag='pp-negative'))
     # Kronecker
     R = 45 if not th else 300
